@@ -389,6 +389,10 @@ func (g *G) addrFresh() msg {
 	if g.chance(6) {
 		n = g.n(200, 1000, "manyaddr")
 	}
+	return g.addrFreshN(n)
+}
+
+func (g *G) addrFreshN(n int) msg {
 	var p built
 	p.cs(uint64(n))
 	for i := 0; i < n; i++ {
